@@ -19,6 +19,8 @@ import (
 
 var R = stats.New("C01")
 
+func init() { gen.Counted = true }
+
 func TestMain(m *testing.M) {
 	if err := ref.SelfTest(); err != nil {
 		fmt.Println("ORACLE SELF-TEST FAILED:", err)
